@@ -1,12 +1,27 @@
 import Rooc.WireModel
 import Rooc.Ref
+import Rooc.RefResidual
 import Rooc.Oracle
 import Rooc.Drv.C01
+import Rooc.Pipeline
+import Rooc.WireSolve
 namespace Rooc.Drv.C03
 open Rooc Sexp Sem
 
-/-- the compiler half of the pipeline is diffed through C01's requests (`linearize-full`). -/
-def handle (α : Type) [Arith α] [Wire α] : List Sexp → Sexp := Drv.C01.handle α
+/-- the compiler half of the pipeline is diffed through C01's requests (`linearize-full`); `solve-using` runs the model of
+`RoocSolver::solve_using(auto_solver)` after `transform` (`Pipeline.solveUsingAuto`) on microlp's raw answer for the
+compiled model: every arm of the error mapping and the returned `LpSolution`. -/
+def handle (α : Type) [Arith α] [Wire α] : List Sexp → Sexp
+  | [.atom "solve-using", m, tol, out] =>
+    match (Model.dec m : Option (Model α)), (decNumS tol : Option α), (SolverWrap.MlpOutcome.dec out : Option (SolverWrap.MlpOutcome α)) with
+    | some m, some tol, some out =>
+      match Pipeline.solveUsingAuto m tol Gen.boundsMaxSteps (fun _ => out) with
+      | .solved lm s => app "solved" [s.enc lm.vars]
+      | .linearization e => app "linearization" [Drv.C01.encErr e]
+      | .solver v => app "solver" [app "err" [.atom v]]
+      | .panic => app "panic" []
+    | _, _, _ => app "err" [.atom "decode"]
+  | args => Drv.C01.handle α args
 
 def decAssign : Sexp → Option (List (String × Rat))
   | .list (.atom "assign" :: ps) => optAll (ps.map fun
@@ -30,6 +45,44 @@ def snap (m : Model (Ext Rat)) (a : List (String × Rat)) : List (String × Rat)
     let r : Rat := ((v + 1/2).floor : Int)
     if discrete && absR (v - r) ≤ 1/1000000 then (n, r) else (n, v)
 
+def noDupNames (l : List String) : Bool :=
+  match l with
+  | [] => true
+  | x :: xs => !(xs.contains x) && noDupNames xs
+
+/-- MIXED models (some used declaration is continuous): the discrete declarations are enumerated exactly, each residual
+LP over the continuous ones is solved by the independent vertex enumeration of `RefResidual.sub`
+(`Ref.refSolveMixed`; `Props.C03.refSolveMixed_*` say what the combination proves when the residual answers are right).
+The returned point is floating point: feasibility is checked within 1e-6. -/
+def mixedJudge (m : Model (Ext Rat)) (outcome : Sexp) : Sexp :=
+  if !(noDupNames (m.domain.map (·.name))) then app "ok" [.atom "skipped-continuous"] else
+  match Ref.refSolveMixed RefResidual.sub m, outcome with
+  | .unknown, _ => app "ok" [.atom "skipped-continuous"]
+  | .unbounded, _ => app "ok" [.atom "skipped-continuous"]
+  | .infeasible, .list [.atom "infeasible"] => app "ok" [.atom "mixed-infeasible"]
+  | .infeasible, .list (.atom "solution" :: _) => app "violation" [.atom "solution-for-infeasible-model"]
+  | .infeasible, o => app "violation" [.atom "wrong-verdict-for-infeasible-model", o]
+  | .optimal v w, .list [.atom "solution", rv, asg] =>
+    match decAssign asg with
+    | none => app "err" [.atom "decode-assignment"]
+    | some a =>
+      let a := snap m a
+      let ρ := Ref.lookup a
+      if !(RefResidual.srcFeasibleTol m ρ) then
+        app "violation" [.atom "returned-point-infeasible", Oracle.encAssign a, Oracle.encAssign w]
+      else match m.optType with
+        | .satisfy => app "ok" [.atom "mixed-feasible"]
+        | _ =>
+          match (decNumS rv : Option (Ext Rat)), eval ρ m.objective with
+          | some (.fin reported), some actual =>
+            if !(close reported actual) then
+              app "violation" [.atom "objective-mismatch", encRat reported, encRat actual]
+            else if !(close actual v) then
+              app "violation" [.atom "not-optimal", encRat actual, encRat v, Oracle.encAssign w]
+            else app "ok" [.atom "mixed-optimal"]
+          | _, _ => app "violation" [.atom "objective-not-finite"]
+  | .optimal _ _, o => app "violation" [.atom "no-solution-for-feasible-model", o]
+
 /-- exact oracle for C03/C16-style end-to-end answers: `ref <model> <outcome>`. -/
 def oracle : List Sexp → Sexp
   | [.atom "ref", m, outcome] =>
@@ -38,7 +91,7 @@ def oracle : List Sexp → Sexp
     | some m =>
       let verdict := Ref.refSolve m
       match verdict, outcome with
-      | .continuous, _ => app "ok" [.atom "skipped-continuous"]
+      | .continuous, outcome => mixedJudge m outcome
       | .undefinedObjective, _ => app "ok" [.atom "skipped-undefined-objective"]
       | .infeasible, .list [.atom "infeasible"] => app "ok" [.atom "infeasible"]
       | .infeasible, .list (.atom "solution" :: _) => app "violation" [.atom "solution-for-infeasible-model"]
